@@ -27,6 +27,14 @@ func (e StdEng) argmaxDenseTensor(t DenseTensor, axis int) (retVal *Dense, err e
 	// SPECIAL CASE: FLAT ARGMAX
 	if axis == AllAxes {
 		var index int
+		if mt, ok := t.(MaskedTensor); !(ok && mt.IsMasked()) && t.RequiresIterator() {
+			// the storage order is not the logical order: walk the elements in logical order
+			var indices []int
+			if indices, err = e.E.ArgmaxIter(typ, dataA, IteratorFromDense(t), t.Size()); err != nil {
+				return nil, err
+			}
+			return New(FromScalar(indices[0])), nil
+		}
 		if mt, ok := t.(MaskedTensor); ok && mt.IsMasked() {
 			if index = e.E.ArgmaxFlatMasked(typ, dataA, mt.Mask()); index == -1 {
 				return nil, errors.Errorf("t is not supported - %T of %v", t, t.Dtype())
@@ -114,6 +122,14 @@ func (e StdEng) argminDenseTensor(t DenseTensor, axis int) (retVal *Dense, err e
 	// SPECIAL CASE: FLAT ARGMAX
 	if axis == AllAxes {
 		var index int
+		if mt, ok := t.(MaskedTensor); !(ok && mt.IsMasked()) && t.RequiresIterator() {
+			// the storage order is not the logical order: walk the elements in logical order
+			var indices []int
+			if indices, err = e.E.ArgminIter(typ, dataA, IteratorFromDense(t), t.Size()); err != nil {
+				return nil, err
+			}
+			return New(FromScalar(indices[0])), nil
+		}
 		if mt, ok := t.(MaskedTensor); ok && mt.IsMasked() {
 			if index = e.E.ArgminFlatMasked(typ, dataA, mt.Mask()); index == -1 {
 				return nil, errors.Errorf("t is not supported - %T of %v", t, t.Dtype())
